@@ -99,3 +99,13 @@ Proof. vm_compute. repeat split. Qed.
 
 Lemma goroutines_decide_under_excl : forallb decides_under_excl go_entries = true.
 Proof. vm_compute. reflexivity. Qed.
+
+(* the eval mode registered for a pooled interpreter never outlives the command that registered it
+   (Gen.LuaPool, regenerated by t38x/luapool.go): a filter script under the shared lock finds none *)
+From T38 Require Gen.LuaPool.
+
+Lemma no_eval_mode_outlives_its_command :
+  forallb (fun u => match snd u with ((registers, paired), _) => implb registers paired end) LuaPool.pool_users = true /\
+  forallb (fun fn => in_strs fn LuaPool.evalcmd_delete_fns) LuaPool.evalcmd_store_fns = true /\
+  LuaPool.mode_lookup_defaults_to_empty = true.
+Proof. vm_compute. repeat split. Qed.
